@@ -4,7 +4,7 @@ From Coq Require Import List NArith Bool Relations.
 From SV Require Import lib.Bytes lib.Closure model.Graph model.GraphDump model.GraphInv model.GraphTree model.GraphTreeInv
   model.GraphCheck model.GraphExt gen.GenGraph gen.GenWriters
   proofs.GraphNodes proofs.GraphProofs proofs.GraphTables proofs.GraphTrans proofs.GraphTreeSim proofs.GraphTreeOps proofs.GraphStepTrans proofs.GraphFileTrans
-  proofs.GraphExtP proofs.GraphCheckP proofs.GraphWriters.
+  proofs.GraphExtP proofs.GraphExtFull proofs.GraphExtRevert proofs.GraphCheckP proofs.GraphWriters.
 Import ListNotations.
 Open Scope N_scope.
 
@@ -577,3 +577,29 @@ Example C09_revert_optional_nonvacuous :
   sstate_of [65] s = Some SSucceeded /\ fstate_of [102] s = Some FBuilt /\
   sstate_of [65] s' = Some SPending /\ fstate_of [102] s' = Some FPlanned /\ inv_b s' = true.
 Proof. vm_compute. repeat split; reflexivity. Qed.
+
+(* I4 / I5c for the whole alphabet op_x, for both forms of the re-attachment trigger: the full invariant
+   inv_full_b is preserved by every operation from ANY state within the build-loop protocol of the
+   older layers; the seven new operations (and the consistency check) need no hypothesis, in
+   particular finalize.revert_optional_steps for EVERY selection of steps (frame GG: the selected
+   steps are PENDING before any of their outputs becomes PLANNED; by I4a an output edge whose sink
+   has a creator points to a product of its source). *)
+Theorem C09_x_full_inv_preserved :
+  forall s o, inv_full_b s = true -> protocol_ok_x s o = true -> inv_full_b (apply_op_x s o) = true.
+Proof. exact inv_full_x_preserved. Qed.
+
+Theorem C09_x_reachable_inv_full :
+  forall cap ops, protocol_ok_run_x (init_st cap) ops = true ->
+                  all_prefixes_ok_x inv_full_b (init_st cap) ops = true.
+Proof. exact reachable_inv_full_x. Qed.
+
+Example C09_x_protocol_nonvacuous :
+  protocol_ok_run_x (init_st 3) (revert_witness ++ [OpRevertOptional [[65]]; OpInitBoot None; OpResetInterruptedRaw]) = true /\
+  inv_succeeded_b (run_ops_x (revert_witness ++ [OpRevertOptional [[65]]]) (init_st 3)) = true.
+Proof. vm_compute. split; reflexivity. Qed.
+
+(* the invariant holds for both forms of the trigger step_node_undefer_reattached (the generated flag
+   gen_undefer_refined selects the one the source has) *)
+Theorem C09_undefer_both_forms :
+  forall refined s s', inv_b s' = true -> inv_b (undefer_post_with refined s s') = true.
+Proof. exact undefer_both_forms. Qed.
